@@ -176,7 +176,10 @@ def run(rep, idx, tier):
         vals = {c.norm(d.value) for d in cap}
         a = glue.acc_of(c, cap[0].value) if len(vals) == 1 else None
         if a is None:
-            rep.bad("C04.3", site, "chunk.data capture value", "value is not an OR-reduction over the sharing registers")
+            # another shape (a direct slice for a chunk with one register, a Mux chain, a phi over the number of sharing
+            # registers ...): nothing the rule can name as wrong
+            rep.unk("C04.3", site, "chunk.data capture value", f"value is not an OR-accumulator over the sharing registers ({sorted(ir.show(v_)[:70] for v_ in vals)[:2]}); "
+                    "its agreement with the OR of the strobed slices is not derived")
         else:
             check_dl(rep, "C04.3", c, "chunk.data' = captured slice when the capture enable is high, else hold", cap, dl.HOLD,
                      [(enable, ('acc', a.id))], env)
